@@ -5,6 +5,7 @@ Driver ops for the standardization family (C01, C02, C05, C09, C10, C14, C16): t
 -/
 import Driver.Common
 import ZepidVerif.Model.Std
+import ZepidVerif.Model.Generalize
 namespace ZVD
 open ZV ZV.Std
 
@@ -30,14 +31,19 @@ def parseRows (a : Args) : Except String (List (Row F)) := do
   let w : List F ← match a.get? "w" with
     | some _ => need a "w" (parseList (Carrier.parse (F := F)))
     | none => pure (s.map fun _ => ((1 : Nat) : F))
-  if s.length ≠ tr.length ∨ s.length ≠ y.length ∨ s.length ≠ w.length then throw "bad-arg:lengths"
-  let rec go (i : Nat) : List Nat → List Bool → List (Option F) → List F → List (Row F)
-    | s :: ss, t :: ts, y :: ys, w :: ws =>
+  -- optional `obs=`: explicit flags (a row may then carry an outcome value and still be unobserved / non-sampled)
+  let ob : List (Option Bool) ← match a.get? "obs" with
+    | some _ => (need a "obs" (parseList parseBool)).map (·.map some)
+    | none => pure (s.map fun _ => none)
+  if s.length ≠ tr.length ∨ s.length ≠ y.length ∨ s.length ≠ w.length ∨ s.length ≠ ob.length then
+    throw "bad-arg:lengths"
+  let rec go (i : Nat) : List Nat → List Bool → List (Option F) → List F → List (Option Bool) → List (Row F)
+    | s :: ss, t :: ts, y :: ys, w :: ws, o :: os =>
       (match y with
-        | some v => ⟨i, s, t, v, w, true⟩
-        | none => ⟨i, s, t, ((0 : Nat) : F), w, false⟩) :: go (i + 1) ss ts ys ws
-    | _, _, _, _ => []
-  pure (go 0 s tr y w)
+        | some v => ⟨i, s, t, v, w, o.getD true⟩
+        | none => ⟨i, s, t, ((0 : Nat) : F), w, false⟩) :: go (i + 1) ss ts ys ws os
+    | _, _, _, _, _ => []
+  pure (go 0 s tr y w ob)
 
 def strataOf (l : List (Row F)) : List Nat := (l.map (·.s)).eraseDups
 
@@ -53,7 +59,7 @@ def sh (x : F) : String := Carrier.shw x
 def opStdG (a : Args) : Except String String := do
   let l : List (Row F) ← parseRows a
   let S := strataOf l
-  let f := fun t arm => sh (std l S t arm)
+  let f := fun (t : Tgt) (arm : Bool) => sh (std l S t.mem arm)
   pure s!"ok pop1={f .pop true} pop0={f .pop false} exp1={f .exposed true} exp0={f .exposed false} unx1={f .unexposed true} unx0={f .unexposed false} strata={S.length}"
 
 /-- Hájek arm means under given per-row weights `omega` -/
@@ -81,7 +87,7 @@ def opGformG (a : Args) : Except String String := do
   let q1 : Array F ← vals a "q1"
   let q0 : Array F ← vals a "q0"
   let Q := fun (r : Row F) (arm : Bool) => if arm then look q1 r else look q0 r
-  pure s!"ok g1={sh (gformula l Q t true)} g0={sh (gformula l Q t false)}"
+  pure s!"ok g1={sh (gformula l Q t.mem true)} g0={sh (gformula l Q t.mem false)}"
 
 def opAipwG (a : Args) : Except String String := do
   let l : List (Row F) ← parseRows a
@@ -91,6 +97,45 @@ def opAipwG (a : Args) : Except String String := do
   let g0 : Array F ← vals a "g0"
   let Q := fun (r : Row F) (arm : Bool) => if arm then look q1 r else look q0 r
   pure s!"ok y1={sh (aipw1 l Q (look g1) (look g0))} y0={sh (aipw0 l Q (look g1) (look g0))}"
+
+/-- IPSW: generated sampling weight (per-row numerator `ns`, denominator `ds`) × treatment weight `tw` -/
+def opIpswG (a : Args) : Except String String := do
+  let l : List (Row F) ← parseRows a
+  let g ← need a "gen" parseBool
+  let stab ← need a "stab" parseBool
+  let ns : Array F ← vals a "ns"
+  let ds : Array F ← vals a "ds"
+  let tw : Array F ← vals a "tw"
+  let ω := ipswOmega g stab (look ns) (look ds) (look tw)
+  pure s!"ok r1={sh (ipsw l ω true)} r0={sh (ipsw l ω false)} w={showList sh (l.map fun r => Gen.ipsw_weight g stab (look ns r) (look ds r))}"
+
+def opGtransG (a : Args) : Except String String := do
+  let l : List (Row F) ← parseRows a
+  let g ← need a "gen" parseBool
+  let q1 : Array F ← vals a "q1"
+  let q0 : Array F ← vals a "q0"
+  let Q := fun (r : Row F) (arm : Bool) => if arm then look q1 r else look q0 r
+  pure s!"ok r1={sh (gtransport g l Q true)} r0={sh (gtransport g l Q false)}"
+
+def opAipswG (a : Args) : Except String String := do
+  let l : List (Row F) ← parseRows a
+  let g ← need a "gen" parseBool
+  let stab ← need a "stab" parseBool
+  let ns : Array F ← vals a "ns"
+  let ds : Array F ← vals a "ds"
+  let tw : Array F ← vals a "tw"
+  let q1 : Array F ← vals a "q1"
+  let q0 : Array F ← vals a "q0"
+  let Q := fun (r : Row F) (arm : Bool) => if arm then look q1 r else look q0 r
+  let ω := aipswOmega g stab (look ns) (look ds) (look tw)
+  pure s!"ok r1={sh (aipsw g l Q ω true)} r0={sh (aipsw g l Q ω false)}"
+
+/-- standardized means over the generalize / transport target -/
+def opStdGenG (a : Args) : Except String String := do
+  let l : List (Row F) ← parseRows a
+  let S := strataOf l
+  let f := fun (g : Bool) (arm : Bool) => sh (std l S (genTarget g) arm)
+  pure s!"ok gen1={f true true} gen0={f true false} tr1={f false true} tr0={f false false}"
 
 end
 
@@ -104,6 +149,10 @@ def opsStd : OpTable := [
   ("hajek", atCarrier (opHajekG (F := Rat)) (opHajekG (F := Float))),
   ("iptw", atCarrier (opIptwG (F := Rat)) (opIptwG (F := Float))),
   ("gform", atCarrier (opGformG (F := Rat)) (opGformG (F := Float))),
-  ("aipw", atCarrier (opAipwG (F := Rat)) (opAipwG (F := Float)))]
+  ("aipw", atCarrier (opAipwG (F := Rat)) (opAipwG (F := Float))),
+  ("ipsw", atCarrier (opIpswG (F := Rat)) (opIpswG (F := Float))),
+  ("gtrans", atCarrier (opGtransG (F := Rat)) (opGtransG (F := Float))),
+  ("aipsw", atCarrier (opAipswG (F := Rat)) (opAipswG (F := Float))),
+  ("stdgen", atCarrier (opStdGenG (F := Rat)) (opStdGenG (F := Float)))]
 
 end ZVD
